@@ -1,7 +1,68 @@
 /-
-Helper lemmas for Props/C03B.lean.
+Helper lemmas for Props/C03B.lean: the hypergeometric pmf and the projection coefficients lie in [0, 1]; an entry of a
+list of non-negative numbers is at most the sum of the list.
 -/
 import SfsModel.Lemmas.Hyper
+import Mathlib.Algebra.Order.Ring.Defs
+import Mathlib.Algebra.Order.Field.Basic
+import Mathlib.Algebra.Order.BigOperators.Group.Finset
+import Mathlib.Algebra.Order.Field.Rat
+import Mathlib.Data.Nat.Choose.Basic
 namespace Sfs
 
+section ordered
+variable {β : Type} [Field β] [LinearOrder β] [IsStrictOrderedRing β]
+
+/-- A hypergeometric probability is one (non-negative) term of a sum that equals one. -/
+theorem hyper_le_one (N K n k : Nat) (hK : K ≤ N) (hn : n ≤ N) : (hyper N K n k : β) ≤ 1 := by
+  by_cases hk : k ≤ n
+  · rw [← hyper_sum_one (α := β) N K n hK hn]
+    exact Finset.single_le_sum (f := fun i => (hyper N K n i : β))
+      (fun i _ => hyper_nonneg N K n i) (Finset.mem_range.mpr (by omega))
+  · rw [hyper_eq, if_neg hk]
+    exact zero_le_one
+
+/-- Strict positivity inside the support. -/
+theorem hyper_pos (N K n k : Nat) (hn : n ≤ N) (hk : k ≤ n) (hkK : k ≤ K) (hr : n - k ≤ N - K) :
+    (0 : β) < hyper N K n k := by
+  rw [hyper_eq, if_pos hk]
+  apply div_pos
+  · exact Nat.cast_pos.mpr (Nat.mul_pos (Nat.choose_pos hkK) (Nat.choose_pos hr))
+  · exact Nat.cast_pos.mpr (Nat.choose_pos hn)
+
+/-- A product of hypergeometric probabilities is at most one. -/
+theorem projectValue_le_one : ∀ (pf from_ pt to_ : List Nat),
+    (∀ j, j < pf.length → from_.getD j 0 ≤ pf.getD j 0 ∧ pt.getD j 0 ≤ pf.getD j 0) →
+    (projectValue pf from_ pt to_ : β) ≤ 1
+  | n :: ns, k :: ks, m :: ms, t :: ts, h => by
+    have h0 := h 0 (by simp)
+    simp only [List.getD_cons_zero] at h0
+    have ih := projectValue_le_one (β := β) ns ks ms ts (fun j hj => by
+      simpa using h (j + 1) (by simpa using hj))
+    rw [projectValue_cons]
+    exact mul_le_one₀ (hyper_le_one n k m t h0.1 h0.2) (projectValue_nonneg ns ks ms ts) ih
+  | [], _, _, _, _ => by simp [projectValue]
+  | _ :: _, [], _, _, _ => by simp [projectValue]
+  | _ :: _, _ :: _, [], _, _ => by simp [projectValue]
+  | _ :: _, _ :: _, _ :: _, [], _ => by simp [projectValue]
+
+/-- An entry of a list of non-negative numbers is at most the sum of the list. -/
+theorem list_mem_le_sum : ∀ (l : List β), (∀ x ∈ l, 0 ≤ x) → ∀ y ∈ l, y ≤ l.sum
+  | [], _, y, hy => by simp at hy
+  | x :: l, h, y, hy => by
+    have hx : 0 ≤ x := h x (by simp)
+    have hl : ∀ z ∈ l, 0 ≤ z := fun z hz => h z (by simp [hz])
+    have hs : 0 ≤ l.sum := List.sum_nonneg hl
+    rw [List.sum_cons]
+    rcases List.mem_cons.mp hy with e | hm
+    · subst e
+      exact le_add_of_nonneg_right hs
+    · exact le_trans (list_mem_le_sum l hl y hm) (le_add_of_nonneg_left hx)
+
+theorem project_le_sum (a b : Arr β) (toShape : List Nat) (hlen : a.data.length = size a.shape)
+    (h : project a toShape = .ok b) (hnn : ∀ x ∈ a.data, 0 ≤ x) : ∀ y ∈ b.data, y ≤ a.data.sum := by
+  rw [← project_sum a b toShape hlen h]
+  exact list_mem_le_sum b.data (project_nonneg a b toShape hlen h hnn)
+
+end ordered
 end Sfs
